@@ -50,11 +50,43 @@ def run_setters(res, seed, tier, with_model=True):
             res.coverage['traces_validated_against_impl'] = len(obs) - len(dis)
     return dict(shapes=shapes, lines=lines, meta=meta, dist=dist, obs=obs, fails=fails)
 
+def replay_setters(res, path):
+    """rebuild the generated type of the recorded case with generated_setters against /repo's current tree, run the recorded setter calls, re-apply the oracle"""
+    r = json.load(open(path))
+    if r.get('kind') != 'failing-input' or r.get('group') != 'setters':
+        print(json.dumps(r, indent=1)[:3000]); print('no runnable setter case in this replay file (broken proof obligation / correspondence, or a declaration that does not build: the declaration is in "case"): re-run the check itself')
+        return 1
+    lines = [l for l in r['case'].split('\n') if l.strip()]
+    shl = lines[0].split(); sid = shl[1]; sh = G.parse_shape(shl[3])
+    t = lines[1].split(); cid = t[1]
+    ix, io = t.index('X', 3), t.index('OPS', 3)
+    x = G.parse_vtext(' '.join(t[ix + 1:io]))
+    ops, i = [], io + 1
+    while i < len(t):
+        fi = int(t[i]); v, i = G.parse_vtoks(t, i + 1); ops.append((fi, v))
+    dg = build_dg(res, [(sid, int(shl[2]), sh)], features=('debug_diffs', 'generated_setters'), tag='dg_replay_setters', setters=True)
+    if not dg:
+        print('the generated crate does not build:', res.broken[:1]); print(f"VIOLATION property={PROP} replay={path}"); return 1
+    f = os.path.join(WORK, f'replay_setters_{os.getpid()}.txt'); open(f, 'w').write('\n'.join(lines[:2]) + '\n')
+    rc, impl = run_lines([dg, f]); os.unlink(f)
+    obs, hfails = split_oracle(impl)
+    obs = canon_impl_lines(obs, {sid: (int(shl[2]), sh)}, {cid: (sid, x, ops)})
+    print('\n'.join(lines[:2])); print('\n'.join(obs))
+    per = {}
+    for l in obs:
+        p = l.split(' ', 2)
+        if p[0] == cid: per[p[1]] = p[2] if len(p) > 2 else ''
+    msgs = O.check_setters(sh, x, ops, per) + hfails
+    for m in msgs: print(f"REPLAY-FAIL property={PROP} {m}")
+    if msgs:
+        print(f"VIOLATION property={PROP} replay={path}"); return 1
+    print(f"replay: the recorded setter calls no longer violate {PROP}"); return 0
+
 def main():
     a = std_args()
     res = Result(PROP, a.tier, a.seed)
     if a.replay:
-        print(open(a.replay).read()); return 1
+        return replay_setters(res, a.replay)
     step_translate(res, ['ordered'])
     step_proofs(res, PROP, ['props/C15.vo'])
     if a.tier == 'thorough': coqchk(res, ['Props.C15'])
